@@ -788,6 +788,10 @@ class FnEmitter:
                   'ArrayToPointerDecay', 'FunctionToPointerDecay', 'ConstructorConversion',
                   'UserDefinedConversion', 'BaseToDerived', 'Dependent'):
             return self.expr(sub)
+        if ck == 'FloatingToIntegral' and self.ct(n) in ('int64_t', 'uint64_t', 'int', 'uint32_t'):
+            # float -> integer: through F2I_* (uninterpreted by default like the float arithmetic feeding it;
+            # bit-precise, with CBMC's conversion check, under ACXX_FLOAT_PRECISE)
+            return 'F2I_%s(%s)' % ({'int64_t': 'i64', 'uint64_t': 'u64', 'int': 'i32', 'uint32_t': 'u32'}[self.ct(n)], self.expr(sub))
         if ck in self.CAST_EXPLICIT:
             return '((%s)(%s))' % (self.ct(n), self.expr(sub))
         if ck in ('IntegralToBoolean', 'FloatingToBoolean', 'PointerToBoolean'):
@@ -846,7 +850,8 @@ class FnEmitter:
                 lhs_as = ea if lct == rct else '((%s)(%s))' % (rct, ea)
                 val = 'F_%s_%s(%s, %s)' % (FOPS[op[:-1]], FSUF[rct], lhs_as, eb)
                 if lct != rct:
-                    val = '((%s)(%s))' % (lct, val)
+                    f2i = {'int64_t': 'i64', 'uint64_t': 'u64', 'int': 'i32', 'uint32_t': 'u32'}.get(lct)
+                    val = ('F2I_%s(%s)' % (f2i, val)) if f2i else '((%s)(%s))' % (lct, val)
                 return '(%s = %s)' % (ea, val)
         return '(%s %s %s)' % (self.expr(a), op, self.expr(b))
     e_CompoundAssignOperator = e_BinaryOperator
@@ -2212,6 +2217,9 @@ class Unit:
                     sha = hashlib.sha256(data[bo:eo + 1]).hexdigest()
                 except Exception:
                     sha = ''
+            if f.get('lambdas_only'):
+                em.dropped.append('BODY OF %s NOT EMITTED: only its lifted lambdas are under contract' % q)
+                lines = None
             results.append({'qname': q, 'cname': cname, 'sig': sig, 'lines': lines,
                             'dropped': em.dropped, 'sha256': sha, 'line': line0,
                             'loops': em.loop_no})
@@ -2330,6 +2338,8 @@ class Unit:
             body.append('/* lambda at line %s */' % line)
             body.append('%s;' % sig)
         for r in results:
+            if r['lines'] is None:
+                continue
             body.append('%s;' % r['sig'])
         for sig, lines, dropped, cname, line in self.lifted:
             body.append('%s' % sig)
@@ -2337,6 +2347,8 @@ class Unit:
             body.extend(lines)
             body.append('}')
         for r in results:
+            if r['lines'] is None:
+                continue
             body.append('/* %s */' % r['qname'])
             body.append(r['sig'])
             body.append('{')
